@@ -11,7 +11,7 @@ for d in seeded/$P-*; do
   case "$rc" in
     exit=1) s=detected;;
     exit=0) s=MISSED;;
-    *) s="MACHINERY($rc)";;
+    *) if echo "$out" | grep -q "hunk.*FAILED"; then s="PATCH-NO-LONGER-APPLIES (superseded by a later fix: commit, see its meta.json)"; else s="MACHINERY($rc)"; fi;;
   esac
   echo "$(basename $d) $s $v"
 done
